@@ -26,6 +26,7 @@ class FunctionResult:
     error: str | None = None  # outside subset / engine error -> undecided
     seconds: float = 0.0
     outcomes: dict = field(default_factory=dict)
+    callees: set = field(default_factory=set)
 
 
 MAX_PATHS = 4000
@@ -53,12 +54,26 @@ def verify_function(reg: Registry, qualname: str, feas: bool = True) -> Function
         try:
             outcome = run_path(ex, ct, fi)
         except Unsupported as e:
+            # an unsupported construct on a path that cannot be taken is irrelevant: decide feasibility of the path
+            # condition properly (the per-branch pruning uses a short budget and may have let an infeasible path through)
+            chk = z3.Solver()
+            chk.set("timeout", 20000)
+            for a in ctx.pc:
+                chk.add(a)
+            for a in ctx.axioms():
+                chk.add(a)
+            if chk.check() == z3.unsat:
+                res.outcomes["infeasible"] = res.outcomes.get("infeasible", 0) + 1
+                res.obligations += [o for o in ctx.obligations]
+                res.paths += 1
+                continue
             res.error = f"outside subset: {e}"
             break
         except Exception as e:  # engine bug -> undecided, never a violation
             res.error = f"engine error: {type(e).__name__}: {e}\n{traceback.format_exc()}"
             break
         res.outcomes[outcome] = res.outcomes.get(outcome, 0) + 1
+        res.callees |= ctx.used_contracts
         for ob in ctx.obligations:
             if ob.cover:
                 ncov[ob.name] = ncov.get(ob.name, 0) + 1
